@@ -337,6 +337,11 @@ class ImplRun:
         if self.style == 1 and all(r.get(a) is not None for a in "xyz"):
             x, y, z = kw.pop("x"), kw.pop("y"), kw.pop("z")
             return fn(*extra_args, (x, y, z), **kw)
+        if self.style == 3 and r.get("x") is not None and r.get("z") is None:
+            # a point-like prefix plus a keyword for an axis the point does not have: the point wins, the keyword is ignored
+            pt = (kw.pop("x"),) if r.get("y") is None else (kw.pop("x"), kw.pop("y"))
+            kw["z" if len(pt) == 2 else "y"] = 7.25
+            return fn(*extra_args, pt, **kw)
         if self.style == 2 and len([a for a in "xyz" if r.get(a) is not None]) > 0:
             from gscrib.geometry import Point
             p = Point(kw.pop("x", None), kw.pop("y", None), kw.pop("z", None))
@@ -816,7 +821,7 @@ class Gen:
             if m in ("wait-for-bed", "wait-for-hotend", "wait-for-chamber") and r.random() < 0.7:
                 name = {"wait-for-bed": "bed-temperature", "wait-for-hotend": "hotend-temperature",
                         "wait-for-chamber": "chamber-temperature"}[m]
-                ps = [(r.choice(["S", "R", "s"]), self.scalar(name, [Fraction(60), Fraction(200)]))]
+                ps = [(r.choice(["S", "R", "s", "r"]), self.scalar(name, [Fraction(60), Fraction(200), Fraction(0), Fraction(0)]))]
             elif r.random() < 0.1:
                 ps = [("P", self.dy(0, 5))]
             return ("halt", m, ps)
